@@ -165,6 +165,11 @@ def run_shard(ctx):
         for pos in sqlgen.IDENT_POSITIONS + ['SELECT t.`{x}` FROM tbl t', 'SELECT `{x}`.a FROM t', 'SELECT a AS `{x}` FROM t', 'SELECT a FROM t AS `{x}`', 'SELECT a.b.`{x}` FROM t']:
             for q in ('`', '"'):
                 base.append(('odd-name', pos.replace('`{x}`', q + x + q)))
+    # statements that every dialect's parser reads with rules of its own (SHOW / SET / USE / transactions ...)
+    for frm in ['tbl', 'db.tbl', 'a.b.c', 'tbl FROM db', '`my db`.`t 1`']:
+        for what in ['COLUMNS', 'FULL COLUMNS', 'INDEXES', 'TABLES', 'FULL TABLES', 'TABLE STATUS']:
+            for tail in ['', " LIKE 'x%'", ' WHERE a = 1']:
+                base.append(('show', f'SHOW {what} FROM {frm}{tail}'))
     prev = None
     for i, (label, text) in enumerate(base):
         if not ctx.mine(i):
@@ -172,6 +177,19 @@ def run_shard(ctx):
         if ctx.out_of_time():
             acc.notes.append(f'shard {ctx.shard}: time budget hit at {i}')
             break
+        # the tree that another dialect's parser builds from the same text (its grammar actions are its own)
+        for dialect in (('mysql', 'sqlite') if label == 'show' else (['mysql', 'sqlite'][i % 2],) if i % 3 == 0 else ()):
+            try:
+                B = parse_sql(text, dialect)
+            except Exception:
+                continue
+            acc.count('other_dialect_trees')
+            acc.add('other_dialects', dialect)
+            fails = check_tree(B, acc, ctx.tier)
+            fails += eq_laws(B, B, acc, 'tree-reflexive')
+            for sig, det in fails:
+                det.update({'text': text[:300], 'dialect': dialect})
+                acc.fail(sig, det)
         try:
             A = parse_sql(text, 'mindsdb')
         except Exception:
